@@ -473,7 +473,7 @@ impl<'a> CompilerState<'a> {
                     }
                     Rule::quoted_string => {
                         // Create a temp variable pointing to this quoted_string
-                        let v = self.compile_quoted_string(primary);
+                        let v = self.compile_quoted_string(primary)?;
                         let mut l = literal_counter.lock().unwrap();
                         let name = format!("cctmp{}", l);
                         *l += 1;
@@ -647,7 +647,7 @@ impl<'a> CompilerState<'a> {
                     }
                     Rule::quoted_string => {
                         // Create a temp variable pointing to this quoted_string
-                        let v = self.compile_quoted_string(primary);
+                        let v = self.compile_quoted_string(primary)?;
                         let mut l = literal_counter.lock().unwrap();
                         let name = format!("cctmp{}", l);
                         *l += 1;
@@ -921,7 +921,7 @@ impl<'a> CompilerState<'a> {
             }
             Rule::asm_statement => {
                 let mut px = pair.into_inner();
-                let mut s = self.compile_quoted_string(px.next().unwrap());
+                let mut s = self.compile_quoted_string(px.next().unwrap())?;
                 let size = if let Some(x) = px.next() {
                     Some(self.parse_calc(x.into_inner())? as u32)
                 } else {
@@ -1650,7 +1650,7 @@ impl<'a> CompilerState<'a> {
                                                         v.push((s, offset));
                                                     }
                                                     Rule::quoted_string => {
-                                                        let k = self.compile_quoted_string(pxx);
+                                                        let k = self.compile_quoted_string(pxx)?;
                                                         let name = format!(
                                                             "cctmp{}",
                                                             self.literal_counter
@@ -1716,7 +1716,7 @@ impl<'a> CompilerState<'a> {
                                                 start,
                                             ));
                                         }
-                                        let string = self.compile_quoted_string(px);
+                                        let string = self.compile_quoted_string(px)?;
                                         let vb = string.as_bytes();
                                         let mut v = Vec::<VariableValue>::new();
                                         for c in vb.iter() {
@@ -2357,15 +2357,25 @@ impl<'a> CompilerState<'a> {
         Ok(())
     }
 
-    fn compile_quoted_string(&self, p: Pair<Rule>) -> String {
+    fn compile_quoted_string(&self, p: Pair<Rule>) -> Result<String, Error> {
         let mut v = String::new();
         let it = p.into_inner();
         for i in it {
-            let j = i.as_str().parse::<usize>().unwrap();
-            v.push_str(&compile_quoted_string_ex(&self.context.literal_strings[j]));
+            // The preprocessor has replaced each string literal by @<its number>@
+            let literal = i
+                .as_str()
+                .parse::<usize>()
+                .ok()
+                .and_then(|j| self.context.literal_strings.get(j));
+            match literal {
+                Some(s) => v.push_str(&compile_quoted_string_ex(s)),
+                None => {
+                    return Err(self.syntax_error("Unexpected character @", i.as_span().start()))
+                }
+            }
         }
         v.push(char::from_u32(0).unwrap());
-        v
+        Ok(v)
     }
 }
 
